@@ -60,8 +60,16 @@ func outside(p string) bool {
 		p = abs
 	}
 	p = filepath.Clean(p)
-	root := filepath.Clean(cur.Root)
-	return p != root && !strings.HasPrefix(p, root+string(filepath.Separator))
+	for _, r := range []string{cur.Root, cur.Root2} {
+		if r == "" {
+			continue
+		}
+		root := filepath.Clean(r)
+		if p == root || strings.HasPrefix(p, root+string(filepath.Separator)) {
+			return false
+		}
+	}
+	return true
 }
 
 func denyWrite(opname, p string) error {
